@@ -197,6 +197,13 @@ def cases(it, S):
     add("annotation collection with end but no start", "gene.collections:AnnotationCollection.__init__", lambda: mk_collection(it, None, None, end=3), {"InvalidAnnotationError"})
     add("annotation collection with two equal genes", "gene.collections:AnnotationCollection.hierarchical_children_guids",
         lambda: it.getattr(mk_collection(it, [mk_gene(it, [t1()], gene_id="g"), mk_gene(it, [t1()], gene_id="g")], None), "hierarchical_children_guids", None, 0), {"InvalidAnnotationError"})
+    # the data model of a sequence-chunk parent: name, start and end are each required
+    pm = lambda **kw: it.call_func(it.repo.fn("io.models:ParentModel.to_parent"), [], {},  # noqa: E731
+                                   it.apply(ClassTok("ParentModel"), [], dict(seq="ACGTACGT", type="SEQUENCE_CHUNK", **kw), None, 0), 0)
+    add("chunk parent model without a start", "io.models:ParentModel.to_parent", lambda: pm(sequence_name="c", end=8), {"InvalidInputError"})
+    add("chunk parent model without an end", "io.models:ParentModel.to_parent", lambda: pm(sequence_name="c", start=0), {"InvalidInputError"})
+    add("chunk parent model without start and end", "io.models:ParentModel.to_parent", lambda: pm(sequence_name="c"), {"InvalidInputError"})
+    add("chunk parent model without a sequence name", "io.models:ParentModel.to_parent", lambda: pm(start=0, end=8), {"InvalidInputError"})
     add("chunk parent without a chromosome", "gene.interval:AbstractInterval.liftover_location_to_seq_chunk_parent",
         lambda: mk_feature(it, [(3, 9)], S["PLUS"], parent_or_seq_chunk_parent=mk_parent(it, id="x", sequence=mk_sequence(it, "ACGTACGTACGT", "NT_STRICT", type=st["SEQUENCE_CHUNK"]))), {"NoSuchAncestorException"})
     return out
